@@ -1355,6 +1355,7 @@ def placements(N, nq, ncontrol, full):
 
 
 REPRESENTATIVE = ("H", "RY", "U3", "CNOT", "SWAP", "IDEN", "RZZ", "FSIM", "ISWAP", "CCX", "CSWAP", "RAW1", "RAW2", "RAW3", "SU4")
+REPRESENTATIVE_QUICK = ("H", "RY", "CNOT", "SWAP", "IDEN", "RZZ", "CCX", "CSWAP", "RAW1", "RAW2", "RAW3")
 
 
 def t_cells(N, tier, specs):
@@ -1391,7 +1392,7 @@ def t_cells(N, tier, specs):
                             add(spec, prior, gdesc(label, default_params(label), qubits, controls, parametrize=True))
     for spec in specs:
         Pm = spec["cls"] == "Circuit"
-        for label in REPRESENTATIVE:
+        for label in REPRESENTATIVE_QUICK if tier == "quick" else REPRESENTATIVE:
             nq = nqubits(label)
             npar = 0 if label.startswith("RAW") else tb.TEXTBOOK[label][1]
             for ncontrol in (0, 1, 2):
@@ -1549,7 +1550,7 @@ def run(ctx):
         table.run(ctx, "t_cell", cells, name="T:gate x placement x controls x simulator x prior", chunk=8)
         if tier == "quick":
             ctx.subproducts.append("T1: all %d labels + RAW1/2/3 x %d simulator configurations x {ascending, descending-far} placements, prior=prefix, no controls (+ parametrize=True on Circuit) complete" % (len(labels), len(specs)))
-            ctx.subproducts.append("T2: %d representative gates x EVERY ordered placement x EVERY ordered control tuple of size 0/1/2 x %d simulator configurations x both priors complete (N=3)" % (len(REPRESENTATIVE), len(specs)))
+            ctx.subproducts.append("T2: %d representative gates %r x EVERY ordered placement x EVERY ordered control tuple of size 0/1/2 x %d simulator configurations x both priors complete (N=3)" % (len(REPRESENTATIVE_QUICK), REPRESENTATIVE_QUICK, len(specs)))
         else:
             ctx.subproducts.append("T: all %d labels + RAW1/2/3 x every ordered placement x every ordered control tuple of size 0/1/2 x %d simulator configurations x both priors complete (N=3); N=4 slice for 6 representative gates" % (len(labels), len(specs)))
 
